@@ -1917,48 +1917,54 @@ fn main() {
         }
         if want("graph4") {
             let reps = args.by_tier(3usize, 12usize);
-            let rep = par_cases(th, args.seed, 4096, args.budget(300, 1200), |i, s, r| {
+            let mut rep = par_cases(th, args.seed, 4096, args.budget(300, 1200), |i, s, r| {
                 graph4_case(i, s, reps, r);
             });
             exhaustive = rep.counters.get("budget_stops").copied().unwrap_or(0) == 0 && rep.counters.get("graph4_graphs").copied().unwrap_or(0) == 4096;
             total.count("graph4_complete", exhaustive as u64);
+            rep.samples.truncate(2);
             total.merge(rep);
         }
         if want("graphN") {
             let n = args.by_tier(12_000u64, 400_000u64);
-            let rep = par_cases(th, args.seed ^ 0x11, n, args.budget(120, 300), |_i, s, r| {
+            let mut rep = par_cases(th, args.seed ^ 0x11, n, args.budget(120, 300), |_i, s, r| {
                 graph_n_case(s, r);
             });
+            rep.samples.truncate(2);
             total.merge(rep);
         }
         if want("graph-prog") {
             let n = args.by_tier(2_500u64, 80_000u64);
-            let rep = par_cases(th, args.seed ^ 0x22, n, args.budget(120, 200), |_i, s, r| {
+            let mut rep = par_cases(th, args.seed ^ 0x22, n, args.budget(120, 200), |_i, s, r| {
                 graph_prog_case(s, r);
             });
+            rep.samples.truncate(2);
             total.merge(rep);
         }
         if want("locks-seq") {
             let n = args.by_tier(12_000u64, 400_000u64);
-            let rep = par_cases(th, args.seed ^ 0x33, n, args.budget(150, 420), |_i, s, r| {
+            let mut rep = par_cases(th, args.seed ^ 0x33, n, args.budget(150, 420), |_i, s, r| {
                 locks_seq_case(s, r);
             });
+            rep.samples.truncate(2);
             total.merge(rep);
         }
         if want("coord") {
             let n = args.by_tier(4_000u64, 120_000u64);
-            let rep = par_cases(th, args.seed ^ 0x44, n, args.budget(120, 240), |_i, s, r| {
+            let mut rep = par_cases(th, args.seed ^ 0x44, n, args.budget(120, 240), |_i, s, r| {
                 coord_case(s, r);
             });
+            rep.samples.truncate(2);
             total.merge(rep);
         }
         if want("threads") {
             // every case spawns 3-7 OS threads of its own
             let outer = (th / 3).max(1);
             let n = args.by_tier(360u64, 12_000u64);
-            let rep = par_cases(outer, args.seed ^ 0x55, n, args.budget(150, 420), |_i, s, r| {
+            let mut rep = par_cases(outer, args.seed ^ 0x55, n, args.budget(150, 420), |_i, s, r| {
                 threads_case(s, r);
             });
+            rep.samples.truncate(2);
             total.merge(rep);
         }
     }
